@@ -281,6 +281,33 @@ def container_vspaces(ctx, world):
                     elif not ok:
                         why = f"operands are passed as {[str(a) for a in body.args]}, expected {[str(a) for a in want]}"
         _ok(ctx, "A14.vspace", inst, ok, loc, f"autograd.builtins.{inst}", f"{inst}: {why}", "a tuple/list/dict of arrays that receives two contributions (fan-out) or is scaled: the children are combined with the wrong operation / operand order")
+    # standard_basis: one basis vector per (key, child basis vector), placed AT THAT KEY into zeros
+    sb = next((st for st in r.node.body if isinstance(st, ast.FunctionDef) and st.name == "standard_basis"), None)
+    if sb is not None:
+        n += 1
+        selfs = _self_sym(r)
+        res, sy, m_, fn_, sc_ = eval_function(world, B, "ContainerVSpace.standard_basis", bind={sb.args.args[0].arg: selfs})
+        ys = []
+        for e_ in list(sc_.effects) + ([res] if res is not None else []):
+            for t in walk(unseq(expand(ev, e_, (), keep_attrs=VS_VOCAB + ("zeros", "standard_basis")))):
+                if t.op == "yield" and not any(t is y for y in ys):
+                    ys.append(t)
+        ok = False
+        if len(ys) == 1:
+            v = ys[0].x
+            inner_src = None
+            if v.op == "iterelem" and v.src.op == "comp" and not v.src.conds:
+                v = v.src.elt
+            selfcall = lambda t, nm: t.op == "call" and t.fn.op == "attr" and t.fn.name == nm and t.fn.obj is selfs and not t.kw
+            if selfcall(v, "_subval") and len(v.args) == 3:
+                z, k, x = v.args
+                zero_ok = selfcall(z, "zeros") and not z.args
+                if k.op == "sub" and k.obj.op == "iterelem" and k.idx.op == "const" and k.idx.value == 0:
+                    S = k.obj.src
+                    src_ok = selfcall(S, "_kv_pairs") and len(S.args) == 1 and S.args[0].op == "attr" and S.args[0].name == "shape" and S.args[0].obj is selfs
+                    x_ok = x.op == "iterelem" and x.src.op == "call" and x.src.fn.op == "attr" and x.src.fn.name == "standard_basis" and not x.src.args and _elem(x.src.fn.obj, S, 1)
+                    ok = bool(zero_ok and src_ok and x_ok)
+        _ok(ctx, "A14.vspace", "ContainerVSpace.standard_basis", ok, loc_of(m, sb), "autograd.builtins.ContainerVSpace.standard_basis", "ContainerVSpace.standard_basis does not yield self._subval(self.zeros(), key, x) for every (key, child space) of the container and every x of the child's standard basis (placing a basis vector by anything but its key duplicates it across equal siblings)", "jacobian / standard_basis of a tuple or dict with two children of the same shape and dtype: the basis is not orthonormal")
     # Sequence / Dict construction order
     for cname, checks in (("SequenceVSpace", ("_map", "_subval")), ("DictVSpace", ("_map", "_subval")), ("NamedTupleVSpace", ("_map", "_subval"))):
         cr = world.repo.resolve(m, cname)
